@@ -1163,8 +1163,17 @@ impl Serialize for RLVector {
     fn load<T: io::Read>(reader: &mut T) -> io::Result<Self> {
         let len = usize::load(reader)?;
         let ones = usize::load(reader)?;
-        let samples = IntVector::load(reader)?;
+        let mut samples = IntVector::load(reader)?;
         let data = IntVector::load(reader)?;
+
+        // A file may store the samples with any sufficient width, but the vector always uses
+        // (and writes) the minimal width, as if it had been built with `RLBuilder`.
+        let width = bits::bit_len(samples.iter().max().unwrap_or(0));
+        if samples.width() != width {
+            let mut packed = IntVector::with_capacity(samples.len(), width).unwrap();
+            packed.extend(samples.iter());
+            samples = packed;
+        }
 
         // Sanity checks.
         let sample_blocks = samples.len() / 2;
